@@ -18,7 +18,7 @@ def fee_rate(cfg):
     fee = cfg["fee"]
     if fee["kind"] == "zero":
         return F0
-    if fee["kind"] == "subzero":
+    if fee["kind"] in ("subzero", "tiered"):
         return frac(fee["c"])
     if fee["kind"] == "subpct":
         return frac(fee["c"]) + frac(fee["t2"])
@@ -121,6 +121,14 @@ def judge_c08(cfg, market, out, ctx):
     sched = set(cal.schedule(cfg["rebalance"], start, end, wd=cfg.get("weekday")))
     burn = cfg["burn_in"]
     rate = fee_rate(cfg)
+    tier = cfg["fee"] if cfg["fee"]["kind"] == "tiered" else None
+    n_fills = [0]
+
+    def rate_now():
+        """The rate the fee model quotes at this point (a tiered model: by the number of fills so far)."""
+        if tier is None:
+            return rate
+        return frac(tier["c"]) if n_fills[0] < tier["k"] else frac(tier["c2"])
     rec = out.rec
     if out.ctor_exc is not None or out.exc is not None:
         ctx.violate(P, "valid_backtest_raised", {"ctor": out.ctor_exc, "run": out.exc,
@@ -153,7 +161,8 @@ def judge_c08(cfg, market, out, ctx):
     def fill(t, a, q):
         nonlocal cash, gross
         p = price(a, t)
-        cands = commission_cands(rate, p, q)
+        cands = commission_cands(rate_now(), p, q)
+        n_fills[0] += 1
         # lock-step: adopt the implementation's commission when it is one of the acceptable values
         comm = cands[0]
         for x in impl_by_t.get(t, []):
@@ -202,9 +211,9 @@ def judge_c08(cfg, market, out, ctx):
                                                                    "exc": srec["exc"]})
                 return
             if cfg["long_only"]:
-                sized = size_long_only(E, cfg["cash_buffer"], rate, fw, lambda a: price(a, t))
+                sized = size_long_only(E, cfg["cash_buffer"], rate_now(), fw, lambda a: price(a, t))
             else:
-                sized = size_long_short(E, cfg["leverage"], rate, fw, lambda a: price(a, t))
+                sized = size_long_short(E, cfg["leverage"], rate_now(), fw, lambda a: price(a, t))
             if any(abs(float(v[2])) > 1e9 for v in sized.values()):
                 # a book that has run away (leveraged and under water, rebalanced again and again): beyond 1e9
                 # shares the implementation's float arithmetic and the exact reference part by whole shares
